@@ -63,7 +63,10 @@ def enc(v):
 
 
 def enc_row(row):
-    row = list(row)
+    try:
+        row = list(row)
+    except TypeError:
+        raise Unencodable('a row that is not a sequence: %r' % (row,))
     return ' '.join(['R%d' % len(row)] + [enc(x) for x in row])
 
 
